@@ -54,6 +54,10 @@ add("C29", "genrun", "generated worlds with adversarial doc comments -> Markdown
     "20k generated worlds per quick run (docs on worlds, interfaces, types, fields, cases, functions with braces, `//`, HTML, markdown metacharacters, unique tokens) plus the corpus: the .html must not open an <a> inside an <a>, every href=\"#x\" needs an id=\"x\"; every non-blank doc line of every world-reachable item must occur verbatim in the .md. Found and fixed: exported interfaces lost their docs.",
     "Doc comments generated here contain no links of their own; text is compared modulo surrounding whitespace, so indentation effects of doc text are not judged (the property allows whitespace changes).")
 
+add("C30", "genrun", "generated multi-package worlds x {sync, --async=all} -> MoonBit generator; structural oracle over all moon.pkg.json files and @alias. qualifiers",
+    "6k generated worlds per quick run plus the corpus, both option variants: every generated moon.pkg.json is parsed; aliases must be unique per package with one alias per imported package, project-internal import paths must name generated package directories, every `@alias.` used in a package's sources must be declared, kebab-case WIT names must appear unchanged in package paths.",
+    "MoonBit sources are not compiled (no toolchain): qualifiers are extracted with a regex after stripping strings/comments; external `moonbitlang/core/...` paths are assumed to exist.")
+
 PENDING_REASON = "check not built yet in this session (planned in DESIGN.md §4); not claimed until it exists and passes its sensitivity runs"
 
 def main():
@@ -105,7 +109,7 @@ def main():
 NA = {}
 HOOK_COMMITS = ["b827c12", "a6f2383"]
 ENGINES = [
-    {"name": "genrun", "path": "harness/genrun", "serves_properties": ["C15", "C16", "C29", "C33"], "kind_free_text": "tape-driven constructive WIT world generator (harness/witgen) + in-process drivers for all eight generators with panic capture and output collection"},
+    {"name": "genrun", "path": "harness/genrun", "serves_properties": ["C15", "C16", "C29", "C30", "C33"], "kind_free_text": "tape-driven constructive WIT world generator (harness/witgen) + in-process drivers for all eight generators with panic capture and output collection"},
     {"name": "abisim", "path": "harness/abisim", "serves_properties": ["C01", "C02", "C03", "C04"], "kind_free_text": "recording wit_bindgen_core::abi::Bindgen + instruction interpreter + independent reference canonical ABI (harness/refabi), driven by proptest"},
     {"name": "rtpbt", "path": "harness/rtpbt", "serves_properties": ["C24"], "kind_free_text": "proptest histories against wit_bindgen::rt allocation entry points with a tracking global allocator"},
     {"name": "corepbt", "path": "harness/corepbt", "serves_properties": ["C17", "C25", "C26", "C27", "C28", "C34"], "kind_free_text": "proptest harnesses over public items of wit-bindgen-core / wit-bindgen rt / wit-bindgen-test"},
